@@ -300,5 +300,116 @@ class InputObjectC(Decorated):
         return {0: LoopContract(self._inv0), 1: LoopContract(self._inv1)}
 
 
-CONTRACTS = COMMON_CONTRACTS + [DidYouMean(), EnumC(), InputFieldValue(), InputObjectC(), NonNull(), ListC(), NullWrapper(), ScalarC(), DirectivesC()]
+def var_def_wf(d):
+    return z3.And(exact(d, 'ExecutableVariableDefinition'), V.oref(d) >= 0, V.is_Str(attr0(d, 'name')),
+                  inst(attr0(d, 'graphql_type'), 'GraphQLType'), V.oref(attr0(d, 'graphql_type')) >= 0,
+                  ast_node(attr0(d, 'definition')),
+                  z3.Or(attr0(d, 'default_value') == V.Undef, ast_node(attr0(d, 'default_value'))))
+
+
+def raw_variables_wf(raw):
+    return z3.And(V.is_Dict(raw), SI.JsonItemsWf(V.ditems(raw)))
+
+
+class VariableCoercer(Contract):
+    """variable_coercer: one step of CoerceVariableValues (GraphQL 6.1.2) with the exact case order"""
+    key = 'tartiflette/coercers/variables.py::variable_coercer'
+    property_ids = ('C04',)
+    params = ['executable_variable_definition', 'raw_variable_values', 'ctx', 'input_coercer', 'literal_coercer']
+    modifies_fields = ('message',)
+
+    def args(self, en, names):
+        self.A = super().args(en, names)
+        return self.A
+
+    def pre(self, A, st):
+        return [('definition', var_def_wf(A['executable_variable_definition'])), ('variables', raw_variables_wf(A['raw_variable_values'])),
+                ('input_coercer', V.is_Fun(A['input_coercer'])), ('literal_coercer', V.is_Fun(A['literal_coercer']))]
+
+    def call_model(self, en, st, f, a, kw):
+        A = self.A
+        d = A['executable_variable_definition']
+        if z3.eq(f, A['input_coercer']):
+            j = en.read(a[1], st)
+            b = SI.InBeh(f)
+            st2, cr = new_cr(en, st, Sem_ok(b, j), Sem_val(b, j))
+            # errors produced by the input coercers are exception objects (the loop below reads their class)
+            return [(st2, cr)]
+        if z3.eq(f, A['literal_coercer']):
+            st2, cr = new_cr(en, st, SI.VDef_ok(f, d), SI.VDef_val(f, d))
+            return [(st2, cr)]
+        return None
+
+    def elem_preds(self, A):
+        return []
+
+    def post(self, A, st0, out):
+        if out.kind == 'raise':
+            return never_raises(out)
+        d, raw, ic, lc = A['executable_variable_definition'], A['raw_variable_values'], A['input_coercer'], A['literal_coercer']
+        tag, r, st = SI.VarTag(d, raw, ic, lc), out.value, out.st
+        return [('absent_iff_spec', (r == V.Undef) == (tag == 2)),
+                ('result_wf', z3.Implies(tag != 2, cr_wf(st, r))),
+                ('refused_iff_spec', z3.Implies(tag != 2, cr_ok(st, r) == (tag == 0))),
+                ('value_is_spec', z3.Implies(tag == 0, cr_value(st, r) == SI.VarVal(d, raw, ic, lc)))]
+
+
+class CoerceVariables(Contract):
+    """coerce_variables: the coerced map is exactly the spec map; errors non-empty iff some definition refuses, one or more per offender"""
+    key = 'tartiflette/coercers/variables.py::coerce_variables'
+    property_ids = ('C04', 'C08')
+    params = ['executable_variable_definitions', 'raw_variable_values', 'ctx']
+    ignore_fields = ('message',)
+    modifies_fields = ('message',)
+
+    def args(self, en, names):
+        self.A = super().args(en, names)
+        return self.A
+
+    def pre(self, A, st):
+        return [('definitions', V.is_List(A['executable_variable_definitions'])), ('variables', raw_variables_wf(A['raw_variable_values']))]
+
+    def elem_preds(self, A):
+        # class invariant of ExecutableVariableDefinition.__init__: coercer == partial(<variable_coercer closure>, self)
+        def wf(d):
+            c = attr0(d, 'coercer')
+            return z3.And(var_def_wf(d), V.is_Fun(c), V.fname(c) == fun_id(SI.K_VARCOERCER), lookup(V.fbound(c), V.Int(0)) == d,
+                          V.is_Fun(SI.def_ic(d)), V.is_Fun(SI.def_lc(d)))
+        return [(V.items(A['executable_variable_definitions']), wf)]
+
+    def call_model(self, en, st, f, a, kw):
+        # executable_variable_definition.coercer(raw, ctx): by the class invariant this is variable_coercer(d, raw, ctx, ic, lc);
+        # the callee is used through its contract (VariableCoercer)
+        f = z3.simplify(f)
+        if z3.is_app(f) and f.decl().kind() == z3.Z3_OP_SELECT and f.arg(0).eq(field0('coercer')):
+            d = f.arg(1)
+            reg = en.registry.get(SI.K_VARCOERCER)
+            return reg.summary(en, st, [d, a[0], a[1]], {'input_coercer': SI.def_ic(d), 'literal_coercer': SI.def_lc(d)})
+        return None
+
+    def _inv(self, en, st, k, st0):
+        defs, raw = V.items(self.A['executable_variable_definitions']), self.A['raw_variable_values']
+        errors = V.items(en.read(st.env['coercion_errors'], st))
+        vals_ = V.ditems(en.read(st.env['coerced_values'], st))
+        return {'errors_iff_refused': VL.is_nil(errors) == SI.NoBad(defs, raw, k),
+                'one_error_per_offender': length(errors) >= SI.CountBad(defs, raw, k),
+                'map_is_spec': vals_ == SI.VarMap(defs, raw, k)}
+
+    @property
+    def loops(self):
+        return {0: LoopContract(self._inv)}
+
+    def post(self, A, st0, out):
+        if out.kind == 'raise':
+            return never_raises(out)
+        defs, raw = V.items(A['executable_variable_definitions']), A['raw_variable_values']
+        n = length(defs)
+        vals_, errors = nth(V.titems(out.value), 0), nth(V.titems(out.value), 1)
+        return [('is_pair', z3.And(V.is_Tuple(out.value), length(V.titems(out.value)) == 2, V.is_Dict(vals_), V.is_List(errors))),
+                ('refused_iff_some_offender', VL.is_nil(V.items(errors)) == SI.NoBad(defs, raw, n)),
+                ('every_offender_reported', length(V.items(errors)) >= SI.CountBad(defs, raw, n)),
+                ('coerced_map_is_spec', vals_ == V.Dict(SI.VarMap(defs, raw, n)))]
+
+
+CONTRACTS = COMMON_CONTRACTS + [VariableCoercer(), CoerceVariables(), DidYouMean(), EnumC(), InputFieldValue(), InputObjectC(), NonNull(), ListC(), NullWrapper(), ScalarC(), DirectivesC()]
 LEMMAS = []
